@@ -563,6 +563,70 @@ func c10wireScenario(bd *bed.Bed, cr *c10creds, c *c10case, s *vt.Sink, st *c10s
 	}
 	replay("replay_url")
 	replay("replay_method")
+
+	// (e) many connections authenticating AT THE SAME TIME with the right credentials (server
+	// connections verify concurrently, and the clients of one process sign concurrently): every
+	// one of their requests must be accepted. Each connection is challenged once and then signs
+	// a series of requests (every signature and every verification is computed afresh).
+	{
+		conns, rounds := 12, 10
+		type one struct {
+			status int
+			kept   bool
+		}
+		var mu sync.Mutex
+		var results []one
+		var wg sync.WaitGroup
+		start := make(chan struct{})
+		for i := 0; i < conns; i++ {
+			p, err := bd.Dial()
+			if err != nil {
+				continue
+			}
+			p.Timeout = 5 * time.Second
+			first := p.Do(&base.Request{Method: base.Describe, URL: bed.MustURL(u), Header: base.Header{"Accept": base.HeaderValue{"application/sdp"}}})
+			if first.Res == nil || first.Res.StatusCode != base.StatusUnauthorized {
+				p.Close()
+				continue
+			}
+			se := &auth.Sender{WWWAuth: first.Res.Header["WWW-Authenticate"], User: user, Pass: pass}
+			if se.Initialize() != nil {
+				p.Close()
+				continue
+			}
+			wg.Add(1)
+			go func() {
+				defer wg.Done()
+				defer p.Close()
+				<-start
+				for r := 0; r < rounds; r++ {
+					req := &base.Request{Method: base.Describe, URL: bed.MustURL(u), Header: base.Header{"Accept": base.HeaderValue{"application/sdp"}}}
+					se.AddAuthorization(req)
+					res := p.Do(req)
+					if res.Timeout {
+						tr.Emit("hang", "m", "DESCRIBE")
+						return
+					}
+					o := one{kept: !res.Closed}
+					if res.Res != nil {
+						o.status = int(res.Res.StatusCode)
+					}
+					mu.Lock()
+					results = append(results, o)
+					mu.Unlock()
+					if res.Closed {
+						return
+					}
+				}
+			}()
+		}
+		close(start)
+		wg.Wait()
+		for _, o := range results {
+			st.wires++
+			tr.Emit("wire", "creds", "right", "status", o.status, "kept", o.kept, "pw", pw, "why", "concurrent")
+		}
+	}
 	tr.Emit("end")
 }
 
